@@ -165,7 +165,10 @@ Write(S, h, off, data) ==
 FSetSize(S, h, n) ==
   IF WriteRes(S, h).st # "ok" THEN S
   ELSE [S EXCEPT !.h[h].buf = IdealSetSize(@, n),
-                 !.h[h].szchg = @ \/ (~S.h[h].changed /\ n # Len(S.h[h].buf))]
+                 !.h[h].szchg = @ \/ (~S.h[h].changed /\ n # Len(S.h[h].buf)),
+                 \* setAttrs replaces the handle's metadata by what the request carries (no permissions = writeable):
+                 \* from now on the close sets the link's metadata instead of keeping what the name has by then
+                 !.h[h].hasmd = TRUE, !.h[h].nw = FALSE]
 
 AT(st, type, size, w) == [st |-> st, type |-> type, size |-> size, w |-> w]
 NoAttrs(st) == AT(st, "", -1, FALSE)
